@@ -234,9 +234,13 @@ func oracleC17(x *scn.Exec) []mc.Violation {
 		agreementDelivered = true
 	}
 	cancelSent := false
+	agreementSent := false
 	for _, o := range x.W.Log {
 		if o.Node != scn.IDA {
 			continue
+		}
+		if o.Kind == "send" && o.SwapID == id && (o.MsgType == mtSwapOutAgree || o.MsgType == mtSwapInAgree) {
+			agreementSent = true
 		}
 		if firstRecord < 0 && o.Kind == "store" && o.SwapID == id {
 			firstRecord = o.At
@@ -292,7 +296,8 @@ func oracleC17(x *scn.Exec) []mc.Violation {
 			if sm.Current != swap.State_SwapCanceled {
 				out = append(out, mc.Violation{Property: "C17", Key: fmt.Sprintf("responder_not_failed_after_fee_invoice_expiry:%s:state=%s", restarted, stateSuffix(string(sm.Current))),
 					Detail: fmt.Sprintf("fee invoice unpaid %s after creation (expiry 600 s); swap still in %s", (now - created).Round(time.Second), sm.Current)})
-			} else if !cancelSent && !cancelReceived {
+			} else if !cancelSent && !cancelReceived && agreementSent {
+				// (if the agreement with the fee invoice never left the node there is nobody to tell)
 				out = append(out, mc.Violation{Property: "C17", Key: "responder_failed_silently:" + restarted, Detail: "swap failed after fee invoice expiry but no cancel was sent"})
 			}
 		}
